@@ -36,7 +36,7 @@ prop(
 
 prop(
     'C15',
-    ['S1', 'S2', 'S3', 'S6', 'S7', 'S8', 'S9'],
+    ['S1', 'S2', 'S3', 'S6', 'S7', 'S8', 'S9', 'V1', 'V2', 'X12'],
     explanation=(
         'Sibling agreement of the per-class protocol with the slot table derived from attrs field annotations (20 concrete '
         'AST classes, 23 child slots). S2: children() evaluated per enum member / None-ness combination allowed by the '
@@ -50,6 +50,7 @@ prop(
         'yield once) or recursive pre-order idiom. S8: aliases()/simple_events() enumerate event1 then event2; '
         'HplProperty.events() yields all four positions. S9: the own-field check searches every reference group without an '
         'early abort, accepts exactly a direct field of the current message and raises afterwards.'
+        ' V1: the constant predicates answer every query with the right constant (no references, fresh empty set). V2: a simple event answers contains_reference / external_references through its predicate (own alias removed exactly when set) and contains_self_reference() as P or (alias and Q) on all 8 cases of the truth table. X12: no query with a declared result falls off the end.'
     ),
 )
 
@@ -81,7 +82,7 @@ prop(
 
 prop(
     'C01',
-    ['G1', 'G2', 'G3', 'G4', 'G5', 'G6', 'G7', 'F1', 'D4', 'T1', 'S4'],
+    ['G1', 'G2', 'G3', 'G4', 'G5', 'G6', 'G7', 'F1', 'D4', 'T1', 'S4', 'X12'],
     explanation=(
         'Grammar model (both embedded grammars and both .lark assemblies compiled by lark; rule list, terminal list, LALR '
         'states inspected) + flow extraction of all transformer callbacks. G1 the two copies compile to the same rules/'
@@ -98,6 +99,7 @@ prop(
         'position, right-nested disjunctions with all alternatives in order, range flags from the outer brackets, literal '
         'values; plus the keyword skeleton of every phrase rule. D4 ms divides by 1000, s is identity. T1 operator table. '
         'Not decided: that lark executes its own tables faithfully; int()/float() on every NUMBER lexeme.'
+        ' X12: no callback or AST method with a declared result can fall off its end (a dropped `return` would hand None to the parent callback).'
     ),
 )
 
@@ -176,7 +178,7 @@ prop(
 
 prop(
     'C08',
-    ['T3', 'T4', 'R6', 'R7', 'R8', 'R9', 'R10', 'R11', 'R12', 'D5', 'X3b', 'X1', 'X2', 'T6'],
+    ['T3', 'T4', 'R6', 'R7', 'R8', 'R9', 'R10', 'R11', 'R12', 'D5', 'V1', 'X3b', 'X1', 'X2', 'T6'],
     explanation=(
         'The table-driven parts of the simplifier and its local identities: T3 commutative/associative flags equal the mathematical ground truth '
         '(used by _pre_simplify_binop to commute/re-associate), T4 INVERSE_OPERATORS is the mirror involution (used to flip '
@@ -207,6 +209,7 @@ prop(
         'NOT decided: the duplicate-elimination tails of conjunction / disjunction, constant folding over sets and of the '
         'other functions, non-integer bounds, the helper contracts themselves, values outside the model (NaN, infinities, '
         'float rounding).'
+        " V1: HplVacuousTruth / HplContradiction report is_vacuous, is_true and their literal condition (token and value) correctly - simplify's re-wrapping, join and split_and read these constants."
     ),
 )
 
@@ -239,7 +242,7 @@ prop(
 
 prop(
     'C14',
-    ['X1', 'X2', 'X3b', 'X3c', 'X10', 'R10', 'R12', 'S3', 'R2', 'T2', 'X5r', 'T4'],
+    ['X1', 'X2', 'X12', 'X3b', 'X3c', 'X10', 'R10', 'R12', 'S3', 'R2', 'T2', 'X5r', 'T4'],
     explanation=(
         'X1 definite assignment over all 614 functions; X2 call.arguments[k] vs the smallest overload of the function the '
         'branch dispatches on; X3b explicit raises of rewrite.py are the documented ones; X5r assert census of everything '
@@ -251,29 +254,32 @@ prop(
         'call, a rebuilt expression, or an argument whose HPL type is established (expression in, expression of the same '
         'type out; a wrongly typed fold makes the rebuilt parent raise); R12 the simplifier does not assert the literal-last normal form for non-commutative operators (`(1 - x) = 1` raised AssertionError). Not decided: TypeError from re-validation of operand types (assumed), '
         'the remaining shape assertions.'
+        ' X12: no function with a declared (non-Optional) result falls off the end of its body.'
     ),
 )
 
 prop(
     'C17',
-    ['S5', 'F3', 'T5', 'A5', 'A8', 'A9', 'X8', 'M1', 'S8'],
+    ['S5', 'S10', 'F3', 'T5', 'A5', 'A8', 'A9', 'X8', 'X1', 'X12', 'M1', 'S8'],
     explanation=(
         'S5 the generic walk pushes all children of every non-accessor node and accessors visit object chain and index; F3 '
         'provenance of the alias -> type mapping; T5 (u)intN bounds computed from the bit width; A5 token validators '
         '(max>=min, length>=-1, contains_index, enumerated kinds, base types); A8 constants are read as (token, value)[0], '
         'contains_name reads both tables, get_type_of prefers fields; A9 leaf_fields composes full dotted paths (recursive or '
         'prefix-carrying work list); X8 no Mapping iterated as pairs without .items(). Not decided: the iff for every schema, comparison results inside _get_next_token.'
+        " S10: access-path resolution as a checked protocol: the walk down .object while is_accessor pushing every accessor; the root typed by the current message for `this` and by the caller's alias map for a variable (an empty map only when none was given); HplSanityError exactly when the root has no type token; the resolution loop t = accessor._get_next_token(t), accessor checked against t.type (argument order), index expressions checked against the same schema; _get_next_token of both accessor classes as exact decision lists (fields before constants, constants entry [0], element type, errors otherwise). X1/X12: no unbound name, no missing return in the schema code."
     ),
 )
 
 prop(
     'C18',
-    ['G8', 'F2', 'X6', 'G6', 'G5', 'M4'],
+    ['G8', 'F2', 'X6', 'G6', 'G5', 'M4', 'X12'],
     explanation=(
         'G8 hpl_file is a non-nullable left-recursive list of properties, metadata keys are exactly id/title/description, '
         'LALR tables build for every start. F2 hpl_file keeps all children in order (no converter that reorders or '
         'deduplicates), hpl_property attaches exactly its own annotations to the new object, metadata builds a fresh dict, '
         'tests every key for repetition and raises HplSyntaxError. X6 no state on the shared transformer. G6 arity.'
+        ' X12: the metadata callbacks and hpl_property return on every path.'
     ),
 )
 
@@ -328,7 +334,7 @@ prop(
 
 prop(
     'C13',
-    ['R3', 'R5', 'S4', 'S3'],
+    ['R3', 'R5', 'R5b', 'V1', 'S4', 'S3', 'X12'],
     explanation=(
         'R3: negate/join of the three predicate classes against the combinator table (~T=F, ~F=T, ~~p=p only under a "not" '
         'guard, ~p=Not(p); T&q=q, F&q=F, p&T=p, p&F=F, p&q=And(p,q)); predicate_from_expression maps literal conditions to '
@@ -337,5 +343,6 @@ prop(
         'reshape passes every slot of every expression class through f in both arms, deep arm recursing first, identity '
         'only when ALL slots are unchanged, rebuilt with but(). Not decided: capture by quantifiers (excluded by the '
         'statement).'
+        ' R5b: substitutions are carried through predicates, simple events and event disjunctions with but(<child>=<child>.<same method>(same arguments in order)), identity only when every child came back unchanged; the vacuous predicates answer with themselves. V1: the constants the combinators read (is_vacuous, is_true, condition literal).'
     ),
 )
